@@ -265,6 +265,37 @@ theorem replace_component_by_name (fuel i : Nat) (c : N) (f : Bool) (ps : PList 
       = .ok (.est i c (.viaMeta attr store) f (ps.replace store (.named (items.replace n new)))) :=
   Tree.replace_component fuel i c f ps attr store items n new hk hattr hs hin
 
+/-- **replacing one member by name leaves every other member alone**: the call succeeds, every parameter other than
+the member list is untouched, the list keeps the same names in the same order (so no member is lost and none moves
+to another position), the new value reads back under `n`, and every other name -- whether it holds an estimator or a
+placeholder such as `'drop'` (an atom) -- still reads exactly what it held before. -/
+theorem replace_component_leaves_others (fuel i : Nat) (c : N) (f : Bool) (ps : PList N) (attr store : N)
+    (items : PList N) (n : N) (new : Val N) (hk : ps.keys.Nodup) (hi : items.keys.Nodup) (hattr : n ≠ attr)
+    (hclash : ∀ m ∈ items.keys, m ∉ ps.keys)
+    (hs : ps.lookup store = some (.named items)) (hin : n ∈ items.keys) :
+    ∃ ps', setVal (fuel + 1) (.est i c (.viaMeta attr store) f ps) [([n], new)]
+          = .ok (.est i c (.viaMeta attr store) f ps') ∧
+      ps'.keys = ps.keys ∧ (∀ p, p ≠ store → ps'.lookup p = ps.lookup p) ∧
+      componentNames store ps' = items.keys ∧
+      dictGet [n] (getVal true (.est i c (.viaMeta attr store) f ps')) = some new ∧
+      ∀ m w, m ≠ n → items.lookup m = some w →
+        dictGet [m] (getVal true (.est i c (.viaMeta attr store) f ps')) = some w := by
+  have hstore : store ∈ ps.keys := Tree.mem_keys_of_lookup ps hs
+  have hs' : (ps.replace store (.named (items.replace n new))).lookup store = some (.named (items.replace n new)) :=
+    Tree.lookup_replace_same ps store _ hstore
+  have hk' : (ps.replace store (.named (items.replace n new))).keys.Nodup := by rw [Tree.keys_replace]; exact hk
+  have hi' : (items.replace n new).keys.Nodup := by rw [Tree.keys_replace]; exact hi
+  refine ⟨_, Tree.replace_component fuel i c f ps attr store items n new hk hattr hs hin, Tree.keys_replace _ _ _,
+    fun p hp => Tree.lookup_replace_ne ps store p _ hp, ?_, ?_, ?_⟩
+  · rw [Tree.componentNames_of_lookup store _ _ hs', Tree.keys_replace]
+  · exact Tree.get_component_by_name i c f _ attr store _ n new hk' hi'
+      (by rw [Tree.keys_replace]; exact hclash n hin) hs' (Tree.lookup_replace_same items n new hin)
+  · intro m w hne hl
+    have hm : m ∈ items.keys := Tree.mem_keys_of_lookup items hl
+    exact Tree.get_component_by_name i c f _ attr store _ m w hk' hi'
+      (by rw [Tree.keys_replace]; exact hclash m hm) hs'
+      (by rw [Tree.lookup_replace_ne items n m new hne]; exact hl)
+
 /-- **order of sktime `_set_params`** (1 → 2): the whole list is installed first, then the component of the
 NEW list is replaced by name -/
 theorem setParams_order_list_then_component (fuel i : Nat) (c : N) (f : Bool) (ps : PList N) (attr : N)
@@ -331,6 +362,9 @@ def naive (id sp : Nat) : Val Nat := .est id 10 .plain false (.cons 1 (.atom sp)
 def detr : Val Nat := .est 2 11 .plain true (.cons 2 (naive 3 1) .nil)
 def pipe : Val Nat :=
   .est 1 12 (.viaMeta 3 3) false (.cons 3 (.named (.cons 4 detr (.cons 5 (naive 4 2) .nil))) .nil)
+def dropEns : Val Nat :=
+  .est 1 12 (.viaMeta 3 3) false
+    (.cons 3 (.named (.cons 6 (.atom 900) (.cons 4 (naive 3 1) (.cons 5 (naive 4 2) .nil)))) .nil)
 def atomOf : Option (Val Nat) → Option Nat
   | some (.atom i) => some i
   | _ => none
@@ -343,7 +377,7 @@ section
 open ExB
 set_option linter.unusedSimpArgs false
 local macro "evalTree" : tactic =>
-  `(tactic| simp [pipe, detr, naive, atomOf, errOf, getVal, getPList, nestedOf, compsOfPList, compsOfVal, itemsTop,
+  `(tactic| simp [pipe, dropEns, detr, naive, atomOf, errOf, getVal, getPList, nestedOf, compsOfPList, compsOfVal, itemsTop,
       itemsNested, pre, dictGet, setVal, dedupKw, metaPre, metaStep1, metaStep2, componentNames, replaceComponent,
       invalidKey, setBare, groupOf, isBare, isCompKey, PList.lookup, PList.lookupLast, PList.keys, PList.replace,
       PList.mapM, PList.mapLastM, cloneVal, clonePList, anyFitted, anyFittedP, checkNames, hasDup])
@@ -354,6 +388,19 @@ example : (match setVal 9 pipe [([4, 2, 1], .atom 7)] with
     | .ok v => atomOf (dictGet [4, 2, 1] (getVal true v)) = some 7 ∧ atomOf (dictGet [5, 1] (getVal true v)) = some 2
     | .error _ => False) := by evalTree
 example : errOf (setVal 9 pipe [([9], .atom 7)]) = some .value := by evalTree
+/- a column ensemble `estimators=[("s", 'drop'), ("t", Naive(sp=1)), ("f", Naive(sp=2))]` (6 "s", atom 900 = 'drop'):
+the placeholder is listed under its name, replacing "t" keeps the three names in order and 'drop' under "s",
+and the placeholder itself can be replaced by name -/
+example : (getVal true dropEns).map (·.1) = [[3], [6], [4], [5], [4, 1], [5, 1]] ∧
+    atomOf (dictGet [6] (getVal true dropEns)) = some 900 := by evalTree
+example : (match setVal 9 dropEns [([4], naive 7 5)] with
+    | .ok v => (getVal true v).map (·.1) = [[3], [6], [4], [5], [4, 1], [5, 1]] ∧
+        atomOf (dictGet [6] (getVal true v)) = some 900 ∧ atomOf (dictGet [4, 1] (getVal true v)) = some 5 ∧
+        atomOf (dictGet [5, 1] (getVal true v)) = some 2
+    | .error _ => False) := by evalTree
+example : (match setVal 9 dropEns [([6], naive 7 5)] with
+    | .ok v => (getVal true v).map (·.1) = [[3], [6], [4], [5], [6, 1], [4, 1], [5, 1]]
+    | .error _ => False) := by evalTree
 example : errOf (setVal 9 pipe [([3, 9], .atom 7)]) = some .attr := by evalTree
 example : anyFitted pipe = true ∧ anyFitted (cloneVal pipe) = false := by evalTree
 example : wfTree pipe = true ∧ depthVal pipe = 4 := by
